@@ -3,6 +3,11 @@ open Driver
 
 let evs_dummy _ _ _ _ _ = Nil
 
+let dtout_str = function
+  | DPos args -> "pos " ^ String.concat " " (List.map string_of_z args)
+  | DKw kw -> "kw " ^ String.concat " " (List.map (fun (k, v) ->
+      string_of_c k ^ "=" ^ (match v with KInt z -> string_of_z z | KTz -> "tz")) kw)
+
 let color_out out tbl rs =
   let t = Hashtbl.create 16 in
   List.iter (function L (k :: v) -> Hashtbl.replace t (int_of_string (atom k)) (cps v) | _ -> failwith "sgr") tbl;
@@ -83,6 +88,18 @@ let handle (x : sexp) : Stdlib.String.t =
       let (_, ts) = run step (List.map natv sch) (sh0, rep (int_of_string (atom n))) in
       String.concat " " (List.map (fun t -> match t.t_out with
         | None -> "-" | Some Printed -> "P" | Some ReprFallback -> "R" | Some KeyErr -> "K") ts)
+  | L [A "timedelta"; neg; d; sec; us] ->
+      let kw = timedelta_kwargs (zint d) (zint sec) (zint us) in
+      let dv = function
+        | DInt z -> string_of_z z
+        | DYears (y, dd) ->
+            (if Z.compare y (z_of_int 1) = Gt then string_of_z y ^ "*365" else "365") ^
+            (if dd = Z0 then "" else "+" ^ string_of_z dd) in
+      (if boolv neg then "- " else "+ ") ^ String.concat " " (List.map (fun (k, v) -> string_of_c k ^ "=" ^ dv v) kw)
+  | L [A "datetime"; y; mo; d; h; mi; sec; us; tz; fold] ->
+      dtout_str (datetime_out (zint y) (zint mo) (zint d) (zint h) (zint mi) (zint sec) (zint us) (boolv tz) (boolv fold))
+  | L [A "time"; h; mi; sec; us; tz; fold] ->
+      dtout_str (time_out (zint h) (zint mi) (zint sec) (zint us) (boolv tz) (zint fold))
   | L [A "dcshow"; A kind; r; a; b; c; d] ->
       let f = if kind = "dc" then dc_display else attrs_display in
       if f (boolv r) (boolv a) (boolv b) (boolv c) (boolv d) then "1" else "0"
